@@ -389,6 +389,14 @@ def run(rep, tier):
             rep.violation(sig, what, info)
         if n % max(1, len(ts) // 5) == 0 and "sample" in r:
             rep.sample(r["sample"])
+    # ---- Colang 2.x with the rails listed in config.yml (vf/props/c02_yaml.py)
+    from vf.props import c02_yaml
+    for r in par.pmap(c02_yaml.explore, c02_yaml.configs(tier)):
+        for k, v in r.items():
+            if isinstance(v, int):
+                agg[k] = agg.get(k, 0) + v
+        for sig, what, info in r["viol"]:
+            rep.violation(sig, what, info)
     # ---- event level: the shipped guardrails library under the event API (vf/props/c02_events.py, E1 explorer)
     from vf.props import c02_events
     ev = {"states": 0, "transitions": 0, "traces_validated_against_impl": 0, "checked_utterances": 0, "output_rail_approvals": 0,
